@@ -149,6 +149,21 @@ Theorem C03_refuted_decoded_path :
 Proof. exact refuted_decoded_path. Qed.
 Print Assumptions C03_refuted_decoded_path.
 
+Theorem C03_refuted_compress_replaces_label :
+  exists f c hs added b w,
+    backend_well_framed b /\ h_values_exact CE (br_headers b) = ["br"] /\
+    respond (with_flag 5) f c hs added b = Some w /\ w_status w = 200 /\
+    h_values_exact CE (w_headers w) = ["gzip"] /\ f_gunzip f (w_body w) = Some (br_body b).
+Proof. exact refuted_compress_replaces_label. Qed.
+Print Assumptions C03_refuted_compress_replaces_label.
+
+(** the repaired labelling: compression appends "gzip" to the codings already named *)
+Theorem C03_compress_appends_label : forall q h, q_compress_replaces_label q = false ->
+  h_values_exact CE (label_gzip q h) = (h_values_exact CE h ++ ["gzip"])%list /\
+  (forall k, k <> CE -> h_values_exact k (label_gzip q h) = h_values_exact k h).
+Proof. exact compress_appends_label. Qed.
+Print Assumptions C03_compress_appends_label.
+
 Theorem C03_refuted_stream_compress_panics :
   exists f c hs added b, backend_well_framed b /\ respond (with_flag 4) f c hs added b = None.
 Proof. exact refuted_stream_compress_panics. Qed.
